@@ -99,7 +99,7 @@ def correspond(ctx):
                                      ("spacetime_cut", ("x", (None, None))), ("pT_cut", ([0.0, 1.0],)), ("rapidity_cut", ("a",)),
                                      ("spacetime_cut", ("w", (0.0, 1.0))), ("mT_cut", ((0.0, 1.0, 2.0),)),
                                      ("lower_event_energy_cut", (-1.0,)), ("multiplicity_cut", ((-1, 3),))])
-        evs, ids, specs = build_events(rng, need_pdg=name in pmodel.NEEDS_PDG)
+        evs, ids, specs = build_events(rng)  # unset PDG ids included: every filter must drop such particles, none may raise
         lines.append(f"f\t{pmodel.encode_call(name, args)}\t{pmodel.encode_events(evs, ids)}")
         cases.append((name, args, evs, ids, specs))
     outs = common.run_driver("C03", lines)
@@ -150,7 +150,7 @@ def search(ctx, budget_s):
     while time.time() - t0 < budget_s and n < limit:
         name = names[n % len(names)]
         _, args = pmodel.gen_call(rng, [name])
-        evs, ids, specs = build_events(rng, unset_prob=0.12, need_pdg=name in pmodel.NEEDS_PDG)
+        evs, ids, specs = build_events(rng, unset_prob=0.12)
         n += 1
         r = oracle_one(name, args, evs, ids)
         history.append((name, args, specs))
